@@ -251,7 +251,35 @@ def r12_7(ctx):
            "tendril Tendril::push_bytes_without_validating")
 
 
+def r12_8(ctx):
+    """Buf32::{grow, destroy, with_capacity}: while a temporary Vec that aliases the tendril's buffer is alive (between
+    Vec::from_raw_parts and mem::forget / the Vec's own drop) the function itself has no panic site: an unwinding panic there
+    drops the Vec, freeing a buffer that the tendril still points to and frees again"""
+    from .C04 import panic_sites
+    n = 0
+    for f in ctx.mir.by_crate["tendril"]:
+        if "Buf32" not in f.path or f.d["kind"] == "Closure":
+            continue
+        raws = [bb for bb, c, t in f.calls() if c is not None and c["path"].replace("core::", "std::").endswith("Vec::<T>::from_raw_parts")]
+        forgets = [bb for bb, c, t in f.calls() if c is not None and c["path"].replace("core::", "std::") == "std::mem::forget"]
+        for rb in raws:
+            n += 1
+            after = f.reach_from(rb) - {rb}
+            bad = []
+            for bb, kind, msg in panic_sites(f):
+                if kind == "overflow" or bb not in after:
+                    continue
+                if not forgets or any(fb in f.reach_from(bb) for fb in forgets):
+                    bad.append((kind, msg))
+            ctx.ob("R12.8", "no-panic-while-buffer-is-aliased/%s" % f.name, not bad,
+                   "no unwrap / expect / assert / panic between from_raw_parts and forget" if not bad else
+                   "%s can panic (%s) while the Vec built by from_raw_parts is alive: unwinding frees the buffer the tendril still owns (double free)" % (f.name, bad[:2]), f.where(rb))
+    ctx.floor("R12.8", "aliasing-vec-sites", n, 2)
+
+
 def run(ctx):
+    ctx.rule("R12.8", "no panic site inside Buf32 functions while a Vec aliasing the buffer is alive")
+    ctx.guard("R12.8", "alias-window", lambda: r12_8(ctx))
     ctx.rule("R12.7", "push_bytes_without_validating lays the appended bytes out identically in its inline and heap branches; the heap write starts at (stored length - drop_left)")
     ctx.guard("R12.7", "append-layout", lambda: r12_7(ctx))
     ctx.rule("R12.1", "every additional view of a heap buffer is preceded by make_buf_shared and incref")
